@@ -73,7 +73,7 @@ func (r Request) Items() int {
 
 // Step kinds.
 const (
-	StepConsume  = "consume"  // Reqs: requests issued concurrently, without intermediate quiescence
+	StepConsume  = "consume"  // Reqs: requests issued concurrently, without intermediate quiescence; D>0: issued D virtual ms later, at the instant other timers fire
 	StepAdvance  = "advance"  // D: virtual milliseconds
 	StepComplete = "complete" // Export: index among the waiting exports; Fail: return an error
 	StepCancel   = "cancel"   // Ctx: context group to cancel
@@ -94,6 +94,9 @@ type Step struct {
 func (s Step) String() string {
 	switch s.Kind {
 	case StepConsume:
+		if s.D > 0 {
+			return fmt.Sprintf("consume%v@+%dms", s.Reqs, s.D)
+		}
 		return fmt.Sprintf("consume%v", s.Reqs)
 	case StepAdvance:
 		return fmt.Sprintf("advance(%dms)", s.D)
